@@ -244,17 +244,24 @@ def harness_build(bins, features="", timeout=1500, profile="release"):
 
 
 def ocaml_build(name, gen_modules, extra=(), timeout=600):
-    """Compile ocaml/<name>.ml with the extracted modules ocaml/gen/<m>.ml(i) into build/<name>."""
+    """Compile ocaml/<name>.ml with the extracted modules ocaml/gen/<m>.ml(i) into build/<name>.
+    The compilation happens in a private directory so that concurrent checks do not disturb each other."""
     os.makedirs(BUILD, exist_ok=True)
+    work = os.path.join(BUILD, name + ".d")
+    sh("rm -rf %s && mkdir -p %s" % (work, work))
     files = []
     for m in gen_modules:
-        files += ["gen/%s.mli" % m, "gen/%s.ml" % m]
-    files += ["runner_common.ml"] + list(extra) + [name + ".ml"]
+        sh("cp gen/%s.mli gen/%s.ml %s/" % (m, m, work), cwd=OCAML)
+        files += ["%s.mli" % m, "%s.ml" % m]
+    for f in ["runner_common.ml"] + list(extra) + [name + ".ml"]:
+        sh("cp %s %s/" % (f, work), cwd=OCAML)
+        files.append(os.path.basename(f))
     exe = os.path.join(BUILD, name)
-    cmd = "ocamlfind ocamlopt -O2 -w -a -I gen -package unix,str -linkpkg %s -o %s 2>&1" % (" ".join(files), exe)
-    rc, out = sh(cmd, cwd=OCAML, timeout=timeout)
-    for junk in glob.glob(os.path.join(OCAML, "*.cm[ixo]")) + glob.glob(os.path.join(OCAML, "*.o")):
-        os.remove(junk)
+    tmp_exe = os.path.join(work, name + ".exe")
+    cmd = "ocamlfind ocamlopt -O2 -w -a -package unix,str -linkpkg %s -o %s 2>&1" % (" ".join(files), tmp_exe)
+    rc, out = sh(cmd, cwd=work, timeout=timeout)
+    if rc == 0:
+        os.replace(tmp_exe, exe)
     return rc, out, exe
 
 
@@ -262,7 +269,7 @@ def run_pipeline(cmds, timeout=3600):
     """Run shell pipelines in parallel (list of command strings); returns list of (rc, out)."""
     procs = []
     for c in cmds:
-        procs.append(subprocess.Popen(c, shell=True, cwd=ROOT, stdout=subprocess.PIPE, stderr=subprocess.STDOUT,
+        procs.append(subprocess.Popen(["bash", "-c", "set -o pipefail; " + c], cwd=ROOT, stdout=subprocess.PIPE, stderr=subprocess.STDOUT,
                                       env=dict(os.environ, CARGO_NET_OFFLINE="true")))
     res = []
     deadline = time.time() + timeout
